@@ -10,6 +10,7 @@ import ProphyModel.Topo
 import ProphyModel.Expr
 import ProphyModel.Cpp
 import ProphyModel.Text
+import ProphyModel.Raw
 open Lean Prophy Prophy.Driver
 
 structure DState where
@@ -79,7 +80,10 @@ def handle (st : DState) (j : Json) : Except String (DState × Json) := do
     let v ← valOfJson (← j.getObjVal? "v")
     match ty, v with
     | .struct _ ms, .struct vs =>
-      pure (st, Json.mkObj [("lens", Json.arr ((Spec.memberLens ms vs ms vs).map (fun (n : Nat) => (n : Json))).toArray),
+      let lens := Spec.memberLens ms vs ms vs
+      pure (st, Json.mkObj [("lens", Json.arr (lens.map (fun (n : Nat) => (n : Json))).toArray),
+                            ("starts", Json.arr ((Spec.memberStarts ms lens 0 false).map (fun (n : Nat) => (n : Json))).toArray),
+                            ("unlimited", Spec.unlTy ty),
                             ("total", (Spec.enc ty v .little).length)])
     | _, _ => pure (st, Json.mkObj [("lens", Json.null), ("total", (Spec.enc ty v .little).length)])
   | "spec_layout" =>
@@ -99,6 +103,37 @@ def handle (st : DState) (j : Json) : Except String (DState × Json) := do
       ("ptr_bytes_zero", toHex (cells.map (·.getD 0))),
       ("written_mask", String.ofList (cells.map fun c => if c.isSome then 'w' else '.')),
       ("vec", vec), ("encoded_byte_size", Json.num (JsonNumber.fromInt (Cpp.codecSize ty)))])
+  | "spec_offsets" =>
+    let ty ← getTy st j
+    let pairs := fun (l : List (String × Nat)) => Json.arr (l.map fun (n, o) => Json.arr #[Json.str n, (o : Json)]).toArray
+    match ty with
+    | .struct _ ms => pure (st, Json.mkObj [("blocks", Json.arr ((Spec.blockOffsets ms).map pairs).toArray),
+        ("size", Spec.sizeTy ty), ("align", Spec.alignTy ty), ("fixed", !(Spec.dynTy ty))])
+    | .union _ arms =>
+      let a := max Spec.flagSize (Spec.alignArms arms)
+      pure (st, Json.mkObj [("blocks", Json.arr #[pairs (("discriminator", 0) :: arms.map fun arm => (arm.name, a))]),
+        ("size", Spec.sizeTy ty), ("align", Spec.alignTy ty), ("fixed", true)])
+    | _ => throw "spec_offsets: composite expected"
+  | "raw_layout" =>
+    let ty ← getTy st j
+    let pairs := fun (l : List (String × Nat)) => Json.arr (l.map fun (n, o) => Json.arr #[Json.str n, (o : Json)]).toArray
+    match ty with
+    | .struct _ ms =>
+      let bs := Raw.structBlocks ms
+      pure (st, Json.mkObj [("sizeof", Raw.sizeofTy ty), ("alignof", Raw.alignofTy ty),
+        ("blocks", Json.arr (bs.map fun b => Json.mkObj [("align", b.align), ("sizeof", b.sizeof),
+          ("fields", pairs (Raw.offsets b.fields 0))]).toArray)])
+    | .union _ arms =>
+      pure (st, Json.mkObj [("sizeof", Raw.sizeofTy ty), ("alignof", Raw.alignofTy ty),
+        ("blocks", Json.arr #[Json.mkObj [("align", Raw.alignofTy ty), ("sizeof", Raw.sizeofTy ty),
+          ("fields", pairs (Raw.unionLayout arms))]])])
+    | _ => throw "raw_layout: composite expected"
+  | "raw_swap" =>
+    let ty ← getTy st j
+    let data ← ofHex (← getStr j "data")
+    match Raw.swap ty data with
+    | some (b, ret) => pure (st, Json.mkObj [("data", toHex b), ("ret", ret)])
+    | none => pure (st, Json.mkObj [("fault", true)])
   | "py_str" =>
     let ty ← getTy st j
     let v ← valOfJson (← j.getObjVal? "v")
